@@ -140,9 +140,17 @@ func entriesUnder(dir string) (fds, maps int, detail []string) {
 	return
 }
 
+// leakSeen: this worker process has already reported goroutines that outlive Close; they stay for the life of the
+// process, so later cases need not wait the full settle time again
+var leakSeen bool
+
 func simpledbGoroutines() (int, string) {
 	var last string
-	for i := 0; i < 1000; i++ {
+	rounds := 1000
+	if leakSeen {
+		rounds = 20
+	}
+	for i := 0; i < rounds; i++ {
 		buf := make([]byte, 1<<20)
 		n := runtime.Stack(buf, true)
 		cnt := 0
@@ -159,6 +167,7 @@ func simpledbGoroutines() (int, string) {
 		// a goroutine that has just released its last channel operation needs a moment to leave its function
 		time.Sleep(10 * time.Millisecond)
 	}
+	leakSeen = true
 	return strings.Count(last, "goroutine "), last
 }
 
